@@ -1,6 +1,7 @@
 """C16 - value accounting adds up."""
 from . import register
 from ..census import leaves_of
+from ..build import order_cost
 
 
 @register('values')
@@ -20,6 +21,7 @@ class Values:
         self.received = {k: 0 for k in self.sinks}
         self.order_cost = {mm: 0 for mm in self.maints}
         self.n_recv = self.n_hooks = 0
+        self.done = {}
         self.part_values = set()
         self.value_changes = 0
         self.checked_poke = False
@@ -132,8 +134,13 @@ class Values:
             t, did, what, tag, ser = log.hooks[self.n_hooks]
             self.n_hooks += 1
             if what == 'start' and self.maints:
-                self.order_cost[self.maints[0]] += (m.items[did].get('wo') or {}).get(tag, [0, 0, 0])[2]
+                c = order_cost(m.items[did], tag, self.done.get((did, tag), 0))
+                self.order_cost[self.maints[0]] += c
                 ctx.count('orders_costed')
+                if self.done.get((did, tag), 0) and m.items[did].get('wo_cost_step'):
+                    ctx.count('orders_costed_differently_from_the_first')
+            elif what == 'end':
+                self.done[(did, tag)] = self.done.get((did, tag), 0) + 1
         for mm in self.maints:
             dev = m.devs[mm]
             if dev.value != self.initial.get(mm, 0) - self.order_cost[mm]:
